@@ -101,7 +101,7 @@ func (w *c12World) publish(ver int) {
 		l.origin.Set(listPath(k), text)
 	}
 	l.origin.Set("/index.json", `{"filters":[`+strings.Join(fl, ",")+`]}`)
-	l.origin.Set("/services.json", servicesText(ver))
+	l.origin.Set("/services.json", servicesText(ver, false))
 	var ss strings.Builder
 	for j := 0; j < markers; j++ {
 		fmt.Fprintf(&ss, "|%s^$dnsrewrite=NOERROR;CNAME;safe.v%d.test\n", marker(j, ver, "ss"), ver)
